@@ -2,7 +2,7 @@
     Property theorems only; each is closed by [exact] of a lemma of [Proofs/]. *)
 From Coq Require Import List ZArith.
 From EDS Require Import Model.Objects Model.Limits Model.Rolling Model.ErsReconcile
-     Proofs.Lists Proofs.RollingProofs Proofs.SyncInv Proofs.C09Proofs.
+     Model.Default Proofs.Lists Proofs.RollingProofs Proofs.SyncInv Proofs.C09Proofs Proofs.RoleConds.
 Import ListNotations.
 Open Scope Z_scope.
 
@@ -84,3 +84,18 @@ Print Assumptions C09_spacing_subsecond.
 (** Non-vacuity: 100 % of 7 nodes, 90 s into a 60 s interval, cap 250: two slots of 7. *)
 Example C09_example : max_creation (PctV 100) (60 * second) 250 7 0 (90 * second) = Some 14.
 Proof. reflexivity. Qed.
+
+(** "t is the time since its Active condition last became true": a sync of a replica set in another role than active (a
+    canary, or no role at all: superseded by a later template) never writes a status whose Active condition is True ... *)
+Theorem C09_inactive_role_not_active : forall sn ch pl st e,
+  ers_sync sn ch = Ok pl -> sn_eds sn = Some e -> is_defaulted e = true ->
+  pl_role pl <> RoleActive -> pl_status pl = Some st ->
+  is_cond_true (rs_conds st) CT_Active = false.
+Proof. exact inactive_role_not_active. Qed.
+Print Assumptions C09_inactive_role_not_active.
+
+(** ... so a replica set that becomes active again starts its ramp at that moment, not at its first activation *)
+Theorem C09_ramp_starts_at_activation : forall st now,
+  is_cond_true (rs_conds st) CT_Active = false -> rolling_start st now = now.
+Proof. exact ramp_starts_at_activation. Qed.
+Print Assumptions C09_ramp_starts_at_activation.
